@@ -13,6 +13,7 @@ import (
 	"com.tuntun.rangers/node/src/storage/trie"
 	"com.tuntun.rangers/node/src/zzverif/node"
 	"com.tuntun.rangers/node/src/zzverif/runner"
+	"com.tuntun.rangers/node/src/zzverif/simmap"
 	"com.tuntun.rangers/node/src/zzverif/simdisk"
 	"com.tuntun.rangers/node/src/zzverif/simrt"
 )
@@ -228,6 +229,7 @@ func (c03) Exec(raw json.RawMessage, stt *simrt.Stats, log *simrt.Log) *simrt.Vi
 	if err := json.Unmarshal(raw, &p); err != nil {
 		panic(runner.InfraError{Msg: "bad plan: " + err.Error()})
 	}
+	simmap.Seed = simrt.Mix(p.Seed, 0x6d6170) | 1 // seeded map iteration order (instrumented build)
 	viol := func(ev int, clause, where, f string, a ...interface{}) *simrt.Violation {
 		return simrt.Violationf("C03", clause, where, ev, f, a...)
 	}
